@@ -3,7 +3,7 @@
 import json, os
 V = os.path.dirname(os.path.abspath(__file__))
 rows = []
-WAVES = '12345678'
+WAVES = '123456789'
 for d in sorted(os.listdir(os.path.join(V, 'seeded'))):
     m = json.load(open(os.path.join(V, 'seeded', d, 'meta.json')))
     wave = next(w for w in WAVES if ('wave ' + w) in m['origin'])
@@ -16,13 +16,15 @@ total = len(rows); missed = sum(1 for r in rows if r[3])
 out = []
 out.append('''## 9. Seeded changes written by independent sub-agents
 
-Eight waves of fresh sub-agents, each given only the text of one property (from
+Nine waves of fresh sub-agents, each given only the text of one property (from
 wave 3 on additionally a one-line hint naming clauses of that same statement
 to aim at, different per wave; in waves 6 and 7 the whole property record and
 one assigned mechanism from its anchors to break, a different one per wave; in
 wave 8 the property record and the instruction to hide the break in an
 uncommon corner of the quantified space - a size, an option value, a kind of
-value, a repeated call) and a scratch worktree of `/repo`, produced one
+value, a repeated call; in wave 9 the instruction that the break must need a
+fault landing at one particular point of an operation, or a multi-step history
+on one object) and a scratch worktree of `/repo`, produced one
 change each that breaks the property, compiles and passes the existing tests,
 together with a demonstration test. Each was kept only after `import_seed.sh`
 had confirmed in a fresh worktree: demonstration passes without the patch,
@@ -86,7 +88,8 @@ files):
   context, never with a per-call context that ends while a user function is
   failing (C02, wave 7); no second `Unsubscribe` for the same channel (C08),
   no second `Synchronize()` on a set in use (C13), no Split output read by two
-  tasks (C01) - wave 8.
+  tasks (C01) - wave 8; no `Subscribe` call whose own context ends in flight
+  (C08), no race-driver call whose own context ends mid-call (C13) - wave 9.
 * **oracle narrower than the statement**: only calls *invoked after* the last
   `Limit` execution were compared with its result (C15); under removals the
   iterator was only required not to panic and to return on Close/cancel, not
@@ -99,7 +102,9 @@ files):
   removals a blocking container iterator was allowed to end early, and one
   parked with an unseen item was given a further Add before being judged,
   which is what un-sticks the seeded change (C20, wave 7, twice - now judged
-  at quiescence as the statement words it).
+  at quiescence as the statement words it); after Close under removals nothing
+  compared what a finished iterator had yielded with what was left in the
+  container (C20, wave 9).
 
 Cross-property verdicts (a change reported by a check other than its own, or
 explicitly not): ''' + '; '.join('`%s`: %s' % (d, ', '.join('%s %s' % (k, x) for k, x in o.items())) for _, d, _, _, _, o in rows if o) + '.')
